@@ -11,7 +11,8 @@ import numpy as np
 from harness import core, specenc
 from harness import rollout as R
 
-PROPS = ["C01", "C03", "C11"]
+PROPS = ["C01", "C03", "C10", "C11"]
+CONSTANT_RESET = {"pac_man", "sokoban"}   # reset instance does not (or hardly) depend on the key by design
 HORIZON = {  # structural horizons of environments without a time limit (C11, second sentence)
     "knapsack": lambda env: env.num_items,
     "tsp": lambda env: env.num_cities,
@@ -46,6 +47,26 @@ def analyze(kit):
             r01.evaluations += 1
         except Exception as e:
             kit.fail(["C01"], "step rejects action_spec.generate_value()", dict(cfg=cfg["label"], op="gen-accepted"), dict(err=repr(e)[:300]))
+        # ---- C10 (last sentence): random generators genuinely depend on the key
+        if name not in CONSTANT_RESET and not any(w in cfg["label"] for w in ("toy", "dummy", "csv")):
+            import hashlib
+            import jax as _jax
+            _, st0, _, _, _, _ = kit.roll(cfg, 0.0)
+            seen = set()
+            for b in range(np.asarray(st0.key).shape[0]):
+                h = hashlib.sha1()
+                s_b = R.slice_tree(st0, b, 0)
+                for path, leaf in _jax.tree_util.tree_flatten_with_path(s_b)[0]:
+                    if "key" in _jax.tree_util.keystr(path):
+                        continue
+                    h.update(np.asarray(leaf).tobytes())
+                seen.add(h.hexdigest())
+            kit.res["C10"].evaluations += 1
+            kit.res["C10"].distinct.add((name, cfg["label"], "key-dependence"))
+            kit.res["C10"].count("key-dependence:%d-distinct-instances" % min(len(seen), 3))
+            if len(seen) < 2:
+                kit.fail(["C10"], "%s: every reset key gives the same instance (generator ignores its key)" % name,
+                         dict(cfg=cfg["label"], op="key-dependence"), dict(keys=int(np.asarray(st0.key).shape[0]), seed=kit.seed))
         for p in (0.0, 0.35):
             roll = kit.roll(cfg, p)
             _, st, ts, ac, fl, k0 = roll
